@@ -2,7 +2,7 @@
     (program/section header table walking with file-controlled entry sizes and
     counts, extended numbering, string table index), the first checks of
     [open_common] and the first walk over the PT_NOTE segments
-    (src/kdumpfile/elfdump.c, repaired by fixes 15, 74, 75, 79).
+    (src/kdumpfile/elfdump.c, repaired by fixes 15, 74, 75, 79, 93, 94).
 
     Every header field is read through the checked accessors of a chunk that
     is exactly as long as the C code asked the file cache for: [e_phentsize]
@@ -53,6 +53,12 @@ Definition hdr_chunk (alim : N) (f : file) (sect : bool) (idx : N) (entsz : N) (
   | Err st _ => Err st (StHdrRead sect idx (of_off off))
   | r => r
   end.
+
+(** [check_hdr_table] (fix 94): a non-empty table must lie within the file;
+    of the last entry only the header structure ([hdrsz] bytes) *)
+Definition hdr_table_ok (flen : N) (off : Z) (num entsz hdrsz : N) : bool :=
+  negb ((18446744073709551615 - hdrsz) / entsz <? num - 1) &&
+  extent_ok flen off ((num - 1) * entsz + hdrsz).
 
 (** malloc(n): fails above the allocation limit *)
 Definition alloc (alim n : N) : bool := n <=? alim.
@@ -144,7 +150,7 @@ Definition read_shdrs (alim : N) (f : file) (be is64 : bool) (shnum entsz : N) (
   end.
 
 (** ** init_strtab *)
-Definition init_strtab (alim : N) (f : file) (nsects : N) (sects : list section) (idx : N)
+Definition init_strtab (alim : N) (f : file) (flen : N) (nsects : N) (sects : list section) (idx : N)
   : res (option chunk) :=
   (* [nsects] is [edp->num_sections], the number of elements of [sects] *)
   if (idx =? 0) || (nsects <=? idx) then Ok None
@@ -152,7 +158,8 @@ Definition init_strtab (alim : N) (f : file) (nsects : N) (sects : list section)
     match nth_error sects (N.to_nat idx) with
     | None => OOB
     | Some ps =>
-      if SIZE_MAX <=? sc_size ps then Err KCORRUPT StStrtab
+      if negb (extent_ok flen (sc_off ps) (sc_size ps)) then Err KCORRUPT StStrtab   (* fix 93 *)
+      else if SIZE_MAX <=? sc_size ps then Err KCORRUPT StStrtab
       else if negb (alloc alim (sc_size ps + 1)) then Err KSYSTEM StAlloc
       else match pread f (sc_size ps) (sc_off ps) with
            | Ok c => Ok (Some c)
@@ -163,7 +170,7 @@ Definition init_strtab (alim : N) (f : file) (nsects : N) (sects : list section)
     end.
 
 (** ** init_elf32 / init_elf64 *)
-Definition init_elf (alim : N) (f : file) (be is64 : bool) (eh : chunk) : res elf_tables :=
+Definition init_elf (alim : N) (f : file) (flen : N) (be is64 : bool) (eh : chunk) : res elf_tables :=
   do machine <- cu16 be eh 18;
   do shnum0 <- cu16 be eh (if is64 then 60 else 48);
   do phnum0 <- cu16 be eh (if is64 then 56 else 44);
@@ -195,11 +202,15 @@ Definition init_elf (alim : N) (f : file) (be is64 : bool) (eh : chunk) : res el
            else if alloc alim (shnum * SIZEOF_SECTION) then Ok tt else Err KSYSTEM StAlloc);
   do segs <- (if negb (phnum =? 0) && (phentsize <? sizeof_phdr is64)
               then Err KCORRUPT (StHdrSize false phentsize)
+              else if negb (phnum =? 0) && negb (hdr_table_ok flen phoff phnum phentsize (sizeof_phdr is64))
+              then Err KCORRUPT (StHdrExtent false phnum (of_off phoff))
               else read_phdrs alim f be is64 phnum phentsize phoff);
   do sects <- (if negb (shnum =? 0) && (shentsize <? sizeof_shdr is64)
                then Err KCORRUPT (StHdrSize true shentsize)
+               else if negb (shnum =? 0) && negb (hdr_table_ok flen shoff shnum shentsize (sizeof_shdr is64))
+               then Err KCORRUPT (StHdrExtent true shnum (of_off shoff))
                else read_shdrs alim f be is64 shnum shentsize shoff);
-  do strtab <- init_strtab alim f shnum sects shstrndx;
+  do strtab <- init_strtab alim f flen shnum sects shstrndx;
   Ok {| et_be := be; et_is64 := is64; et_machine := machine;
         et_phnum := phnum; et_shnum := shnum;
         et_loads := fst segs; et_notes := snd segs; et_sects := sects; et_strtab := strtab |}.
@@ -207,7 +218,7 @@ Definition init_elf (alim : N) (f : file) (be is64 : bool) (eh : chunk) : res el
 (** ** do_probe *)
 Definition ELFMAG : list N := [127; 69; 76; 70].
 
-Definition do_probe (alim : N) (f : file) (eh : chunk) : res elf_tables :=
+Definition do_probe (alim : N) (f : file) (flen : N) (eh : chunk) : res elf_tables :=
   do mag <- cbytes eh 0 4;
   if negb (if list_eq_dec N.eq_dec mag ELFMAG then true else false) then Err KNOPROBE StSignature
   else
@@ -217,17 +228,15 @@ Definition do_probe (alim : N) (f : file) (eh : chunk) : res elf_tables :=
     do eiclass <- cu8 eh 4;
     do etype <- cu16 be eh 16;
     do eversion <- cu32 be eh 20;
-    if (eiclass =? 1) && (etype =? ET_CORE) && (eversion =? 1) then init_elf alim f be false eh
-    else if (eiclass =? 2) && (etype =? ET_CORE) && (eversion =? 1) then init_elf alim f be true eh
+    if (eiclass =? 1) && (etype =? ET_CORE) && (eversion =? 1) then init_elf alim f flen be false eh
+    else if (eiclass =? 2) && (etype =? ET_CORE) && (eversion =? 1) then init_elf alim f flen be true eh
     else Err KNOTIMPL StClass.
 
 (** ** elf_probe up to and including the first note walk of open_common *)
 Record elf_result := { er_tables : elf_tables; er_notes : list note }.
 
-(** [check_file_extent] (fix 79): the note data must lie within the [flen]
-    bytes of the file *)
-Definition extent_ok (flen : N) (off : Z) (size : N) : bool :=
-  ((0 <=? off) && (off <=? Z.of_N flen))%Z && (size <=? flen - Z.to_N off).
+(** [check_file_extent] (fix 79, [Bounded.extent_ok]): the note data must lie
+    within the [flen] bytes of the file *)
 
 Fixpoint walk_notes (alim : N) (f : file) (flen : N) (be : bool) (segs : list segment)
   : res (list note) :=
@@ -249,7 +258,7 @@ Fixpoint walk_notes (alim : N) (f : file) (flen : N) (be : bool) (segs : list se
 
 Definition elf_probe (alim : N) (f : file) (flen : N) : res elf_result :=
   do eh <- get_chunk alim f 64 0;
-  do t <- do_probe alim f eh;
+  do t <- do_probe alim f flen eh;
   (* [!edp->num_load_segments && !edp->num_sections] *)
   if (match et_loads t with [] => true | _ => false end) && (et_shnum t =? 0)
   then Err KNOTIMPL StNoContent
